@@ -35,4 +35,4 @@ def tonumpy(poly: PolyLike) -> numpy.ndarray:
     idx = numpy.argwhere(numpy.all(poly.exponents == 0, -1)).item()
     if poly.size:
         return numpy.array(poly.coefficients[idx])
-    return numpy.array([])
+    return numpy.empty(poly.shape, dtype=poly.dtype)
